@@ -571,6 +571,24 @@ Definition h_run (o : hopts) (l : list A) : hres := fold_left (h_add o) l h_init
 
 End Result.
 
+
+(* ------------------------------------------------------------------------
+   Re-ordering the exponent list (specification-level helpers, executable):
+   position j of the re-ordered list is position pi[j] of the original one;
+   `ren` renames the exponent index of every cached operator of a block.
+   ------------------------------------------------------------------------ *)
+Definition permute {A} (d : A) (pi : list nat) (l : list A) : list A :=
+  map (fun j => nth j l d) pi.
+
+Definition ren_basis (f : nat -> nat) (b : sbasis) : sbasis :=
+  match b with
+  | BId => BId
+  | BPre k => BPre (f k) | BPost k => BPost (f k)
+  | BPreD k => BPreD (f k) | BPostD k => BPostD (f k)
+  end.
+Definition ren {C} (f : nat -> nat) (op : sop C) : sop C :=
+  map (fun p => (fst p, ren_basis f (snd p))) op.
+
 (* ------------------------------------------------------------------------
    Execution instance: Gaussian integers
    ------------------------------------------------------------------------ *)
